@@ -64,11 +64,11 @@ var Includes = map[string][]string{
 	"C12": {"C02.new-state", "C02.rollback", "C02.self-verify"},
 	// one CAS-guarded commit per entry
 	"C16": {"C03.one-append", "C03.entry-shape", "C17.cas"},
-	"C17": {"C03.number", "C03.entry-shape", "C04.stepper-checks", "C04.stepper-table"},
+	"C17": {"C03.number", "C03.entry-shape", "C03.writers", "C04.stepper-checks", "C04.stepper-table"},
 	// names move through the same plumbing calls
 	"C18": {"C10.nul-protocol"},
 	// a stale 'latest' state breaks the prediction only
-	"C19": {"C08.latest-reads-tip"},
+	"C19": {"C08.latest-reads-tip", "C11.all-rules-checked"},
 }
 
 // RulesFor returns the rules evaluated for a property: its own plus the included ones.
